@@ -164,6 +164,9 @@ func extFmtNoop(fr *frame, args []value) value {
 
 // formatOperand renders one operand for verb; returns bytes.
 func (i *interpreter) formatOperand(fr *frame, verb byte, flags string, arg value) []value {
+	if isLazy(arg) {
+		arg = i.forceIface(fr, arg)
+	}
 	itf, ok := arg.(iface)
 	if !ok {
 		itf = iface{t: nil, v: arg}
@@ -391,7 +394,7 @@ func extFmtSprint(fr *frame, args []value) value {
 	ops := args[0].([]value)
 	prevStr := true
 	for k, a := range ops {
-		itf := a.(iface)
+		itf := fr.i.forceIface(fr, a)
 		_, isStr := itf.v.(string)
 		if _, ss := itf.v.(sstr); ss {
 			isStr = true
@@ -413,6 +416,9 @@ func extFmtErrorf(fr *frame, args []value) value {
 	// only operands that are errors count as wrapped
 	var werrs []value
 	for _, w := range wrapped {
+		if isLazy(w) {
+			w = i.forceIface(fr, w)
+		}
 		if itf, ok := w.(iface); ok && itf.t != nil && types.Implements(itf.t, errorIface) {
 			werrs = append(werrs, itf)
 		}
@@ -436,8 +442,8 @@ func extFmtErrorf(fr *frame, args []value) value {
 
 func extErrorsIs(fr *frame, args []value) value {
 	i := fr.i
-	err := args[0].(iface)
-	target := args[1].(iface)
+	err := i.forceIface(fr, args[0])
+	target := i.forceIface(fr, args[1])
 	if err.t == nil || target.t == nil {
 		return err.t == nil && target.t == nil
 	}
